@@ -977,6 +977,11 @@ func (as *AbacoSource) readerMainLoop() {
 	defer ticker.Stop()
 	as.lastread = time.Now()
 
+	// Frames and bytes filled in for missing packets are counted until a buffer is sent, so the fills
+	// made in a tick that ends by awaiting more data are reported with the next buffer.
+	var droppedFrames int
+	var droppedBytes int
+
 awaitmoredata:
 	for {
 		select {
@@ -992,8 +997,6 @@ awaitmoredata:
 		case <-ticker.C:
 			// read from the UDP port or ring buffer
 			var lastSampleTime time.Time
-			var droppedFrames int
-			var droppedBytes int
 			for _, pp := range as.producers {
 				allPackets, err := pp.ReadAllPackets()
 				lastSampleTime = time.Now()
@@ -1083,6 +1086,8 @@ awaitmoredata:
 				droppedBytes:   droppedBytes,
 				droppedFrames:  droppedFrames,
 			}
+			droppedFrames = 0
+			droppedBytes = 0
 			if bytesProcessed > 0 {
 				timeout.Reset(timeoutPeriod)
 			}
